@@ -52,8 +52,11 @@ def verticalSpaces : Parser Unit :=
   void (repeat0 (lineEnding <|| void (pair space1 (lineEnding <|| eof))))
 /-- `character::paren(inner)` = `delimited(one_of('('), inner, one_of(')'))` -/
 def paren {α : Type} (inner : Parser α) : Parser α := delimited (char '(') inner (char ')')
-/-- `character::paren_str` = `paren(take_till(0.., ')'))` -/
-def parenStr : Parser (List Char) := paren (takeTill0 (· == ')'))
+/-- the characters at which the text of `paren_str` stops: the closing parenthesis, or the end of the line -/
+def isParenStrStop (c : Char) : Bool := c == ')' || c == '\r' || c == '\n'
+/-- `character::paren_str` = `paren(take_till(0.., [')', '\r', '\n']))`: "unnested string in paren, which must be closed
+on the same line" (at a CR / LF the closing `one_of(')')` fails and the whole `paren_str` backtracks) -/
+def parenStr : Parser (List Char) := paren (takeTill0 isParenStrStop)
 
 /-! ## `primitive.rs` -/
 
